@@ -42,6 +42,20 @@ class MixedError(DeepUserError, OSError):
     """Two registered-extractor candidates in the MRO."""
 
 
+class FalsyError(Exception):
+    """An exception instance that is falsy."""
+
+    def __bool__(self):
+        return False
+
+
+class EmptyErrors(Exception):
+    """An aggregate exception with no members: len() == 0, hence falsy."""
+
+    def __len__(self):
+        return 0
+
+
 class DestFault(Exception):
     pass
 
@@ -68,6 +82,8 @@ POOL = {
     "DeepUserError": DeepUserError,
     "MixedError": MixedError,
     "BadStr": BadStr,
+    "FalsyError": FalsyError,
+    "EmptyErrors": EmptyErrors,
     "UnicodeErr": UnicodeErr,
     "KeyboardInterrupt": KeyboardInterrupt,
     "GeneratorExit": GeneratorExit,
